@@ -8,7 +8,7 @@ CONSTANTS
     Dig <- DigDef
     Paths <- PathsDef
     OnePath <- OneDef
-    MaxSteps = 6
+    MaxSteps = 5
 INVARIANT Inv_Addressed
 INVARIANT Inv_UniqueNames
 INVARIANT Inv_Protected
